@@ -38,7 +38,11 @@ CfgOf(c) ==
 CfgOf2(c) ==
     LET f == CfgOf(c).predef IN [CfgOf(c) EXCEPT !.predef = [x \in DOMAIN f |-> c.predef[f[x]].tl]]
 
-ApiOf(e) == [api |-> e.api, call |-> e.call, tl |-> e.tl, short |-> e.short, stid |-> e.stid, qos |-> e.qos,
+(* the message ID the client chose for the exchange this call starts: bound from the datagram it sent *)
+IdTypes == {"REGISTER", "SUBSCRIBE", "UNSUBSCRIBE", "PUBLISH"}
+MidHint(l) == LET ks == {k \in DOMAIN l.out : l.out[k].t \in IdTypes}
+              IN IF ks = {} THEN 0 ELSE l.out[CHOOSE k \in ks : \A j \in ks : k <= j].mid
+ApiOf(e, hint) == [api |-> e.api, call |-> e.call, mid |-> hint, tl |-> e.tl, short |-> e.short, stid |-> e.stid, qos |-> e.qos,
              tid |-> e.tid, dur |-> e.dur, dsec |-> e.dsec, h |-> e.h, pl |-> e.pl]
 GwOf(p)  == [t |-> p.t, qos |-> p.qos, tit |-> p.tit, tid |-> p.tid, mid |-> p.mid, rc |-> p.rc, tl |-> p.tl,
              data |-> p.data, dup |-> p.dup]
@@ -51,7 +55,7 @@ Norm(p) ==
     LET z == [P0 EXCEPT !.t = p.t]
     IN CASE p.t = "CONNECT"     -> [z EXCEPT !.hascid = p.hascid]
          [] p.t = "REGISTER"    -> [z EXCEPT !.mid = p.mid, !.tl = p.tl]
-         [] p.t = "REGACK"      -> [z EXCEPT !.mid = p.mid, !.tid = p.tid, !.rc = p.rc]
+         [] p.t = "REGACK"      -> [z EXCEPT !.mid = p.mid, !.tid = p.tid, !.rc = IF p.rc = 0 THEN 0 ELSE 1]  \* which refusal code: free
          [] p.t = "SUBSCRIBE"   -> [z EXCEPT !.mid = p.mid, !.dup = p.dup, !.qos = p.qos, !.tit = p.tit,
                                              !.tid = IF p.tit = 0 THEN 0 ELSE p.tid,
                                              !.tl = IF p.tit = 0 THEN p.tl ELSE <<>>]
@@ -60,7 +64,7 @@ Norm(p) ==
                                              !.tl = IF p.tit = 0 THEN p.tl ELSE <<>>]
          [] p.t = "PUBLISH"     -> [z EXCEPT !.mid = IF p.qos \in {1, 2} THEN p.mid ELSE 0, !.dup = p.dup,
                                              !.qos = p.qos, !.tit = p.tit, !.tid = p.tid]
-         [] p.t = "PUBACK"      -> [z EXCEPT !.mid = p.mid, !.tid = p.tid, !.rc = p.rc]
+         [] p.t = "PUBACK"      -> [z EXCEPT !.mid = p.mid, !.tid = p.tid, !.rc = IF p.rc = 0 THEN 0 ELSE 1]
          [] p.t \in {"PUBREC", "PUBREL", "PUBCOMP"} -> [z EXCEPT !.mid = p.mid]
          [] p.t = "PINGREQ"     -> [z EXCEPT !.hascid = p.hascid]
          [] p.t = "DISCONNECT"  -> [z EXCEPT !.hasdur = p.hasdur]
@@ -98,7 +102,7 @@ AdvCands(st, n) ==
        ELSE {[r |-> FireSeq(Res(s1, <<>>, {}), o), missed |-> q.missed] : o \in Orders(due)}
 
 Cands(st, l) ==
-    CASE l.ev.t = "Api" -> {[r |-> DoApi([st EXCEPT !.ncall = @ + 1], ApiOf(l.ev)), missed |-> NoMissed]}
+    CASE l.ev.t = "Api" -> {[r |-> DoApi([st EXCEPT !.ncall = @ + 1], ApiOf(l.ev, MidHint(l))), missed |-> NoMissed]}
       [] l.ev.t = "G"   ->
            {[r |-> DoGw(st, GwOf(l.ev.p)), missed |-> NoMissed]}
            \cup \* the code restarts the sleep period on a duplicated DISCONNECT reply; both are accepted
@@ -151,7 +155,7 @@ JudgeFull(pre, l, cand) ==
              \cup {"C06/pubrec-missing/" \o (IF l.ev.p.mid \in DOMAIN pre.tx THEN "coinciding-" \o pre.tx[l.ev.p.mid].kind ELSE "no-coincidence") :
                  m \in {x \in missing : x.t = "PUBREC" /\ l.ev.t = "G"}}
              \cup {"C16/register-retransmit-rejected" :
-                 m \in {x \in missing : x.t = "REGACK" /\ x.rc = 0 /\ [x EXCEPT !.rc = 2] \in extra}}
+                 m \in {x \in missing : x.t = "REGACK" /\ x.rc = 0 /\ [x EXCEPT !.rc = 1] \in extra}}
              \cup {"C33/no-pingreq-within-keepalive" :
                  m \in {x \in missing : x.t = "PINGREQ" /\ ~x.hascid /\ l.ev.t = "Adv" /\ pre.kaDue >= 0}}
              \cup {"C33/keepalive-ping-while-" \o l.st :
@@ -177,8 +181,10 @@ JudgeFull(pre, l, cand) ==
         termC  == {c \in DOMAIN pre.calls : pre.calls[c].term} \cup {c \in DOMAIN post.calls : post.calls[c].term}
                   \cup {x.call : x \in {y \in r.rets \cup cand.missed.rets : y.term}}
                   \cup (IF termNow THEN {x.call : x \in r.rets} ELSE {})
-        obsR   == {[call |-> l.rets[k].call, err |-> l.rets[k].err] : k \in DOMAIN l.rets}
-        expR   == {[call |-> x.call, err |-> x.err] : x \in {y \in r.rets \cup cand.missed.rets : y.call \notin termC}}
+        \* which error a failing call returns is not promised by any property: only nil / not nil is compared
+        E(e)   == IF e = "nil" THEN "nil" ELSE "error"
+        obsR   == {[call |-> l.rets[k].call, err |-> E(l.rets[k].err)] : k \in DOMAIN l.rets}
+        expR   == {[call |-> x.call, err |-> E(x.err)] : x \in {y \in r.rets \cup cand.missed.rets : y.call \notin termC}}
         unexp  == {x \in obsR : x \notin expR /\ x.call \notin termC}
         absent == {x \in expR : x \notin obsR /\ x.call \notin {y.call : y \in obsR}}
         wrong  == {x \in expR : x \notin obsR /\ x.call \in {y.call : y \in unexp}}
